@@ -84,6 +84,9 @@ class C16(Property):
                 pick = rng.sample(classes, 3)
             for name, L in pick:
                 cases.append(Case(g.curve_line(cmd, m, L, pts), tags=(tag, "L-" + name, f"mode{m}")))
+        for m in g.MODES:   # F13 witness: nearly collinear perfect curve whose f32 denominator is exactly 0
+            for L in (None, 50.0):
+                cases.append(Case(g.curve_line(cmd, m, L, [(404.0, -3.0, "P"), (279.0, 148.9139862060547, None), (358.74554443359375, 51.998291015625, None)]), tags=("witness-F13",)))
         # hostile coordinates: correspondence only
         for _ in range(100):
             pts = g.rand_points(rng)
@@ -105,6 +108,10 @@ class C16(Property):
         if "nonfinite-endpoint" in out and g.nan_cut_predicate(case.line, core.run_impl):
             for f in findings:
                 if f.get("predicate") == "nan_cut":
+                    return f["id"]
+        if "nonfinite-natural-path" in out and g.ill_conditioned_arc_predicate(case.line):
+            for f in findings:
+                if f.get("predicate") == "ill_conditioned_arc":
                     return f["id"]
         if "cut-overshoots-simplified-segment" in out and g.cut_overshoot_predicate(case.line, core.run_impl):
             for f in findings:
